@@ -325,7 +325,7 @@ class URLCanonicalizer(Validator):
     urlparse = urlparse
 
     def validate(self, element, state):
-        if not self.discard_parts:
+        if not self.discard_parts or element.value is None:
             return True
         try:
             url = self.urlparse.urlparse(element.value)
